@@ -198,6 +198,27 @@ def chk_boundary(c):
             Jf = np.squeeze(f.grid_jacobian(full), axis=ax)
             keep = [k for k in range(sdim) if k != sdim - 1 - ax]
             assert np.allclose(g.grid_jacobian(grid), Jf[..., keep], rtol=1e-11, atol=1e-11), '_BoundaryFunction.grid_jacobian drops the wrong column'
+    # boundary of a function whose support is restricted in SOME directions only: the face inherits the (restricted) support of the remaining
+    # directions, and is the restriction of the function to that face of its (restricted) domain
+    if sdim >= 2 and hasattr(f, 'copy'):
+        for keep_full in range(sdim):
+            fr = f.copy()
+            supp = tuple((lo, hi) if d == keep_full else (lo + 0.25 * (hi - lo), hi - 0.125 * (hi - lo)) for d, (lo, hi) in enumerate(f.support))
+            fr.support = supp
+            for ax in range(sdim):
+                for side in (0, 1):
+                    b = fr.boundary((ax, side))
+                    want = tuple(s_ for d, s_ in enumerate(supp) if d != ax)
+                    assert np.allclose(np.asarray(b.support, dtype=float), np.asarray(want, dtype=float)), \
+                        'boundary(%r) of a function with support %r has support %r, expected %r' % ((ax, side), supp, tuple(map(tuple, b.support)), want)
+                    grid = [np.linspace(lo, hi, 3) for (lo, hi) in want]
+                    full = list(grid)
+                    full.insert(ax, np.array([supp[ax][side]]))
+                    ref = np.squeeze(f.grid_eval(full), axis=ax)
+                    bv = np.asarray(b.grid_eval(grid))
+                    if bv.shape != ref.shape and bv.shape == ref.shape + (1,):
+                        bv = bv[..., 0]
+                    assert np.allclose(bv, ref, rtol=1e-12, atol=1e-12), 'boundary(%r) with partially restricted support is not the restriction to that face' % ((ax, side),)
     for bad in ('middle', (sdim, 0), (0, 2), (-1, 0)):
         try:
             bspline._parse_bdspec(bad, sdim)
